@@ -359,7 +359,11 @@ def c10(tier, seed):
         # iff its flag is truthy when the execution runs - also when the flag's producer had not run when setup() was called
         + [dict(kind="hist11", pid="C10", n_histories=(150 if tier == "quick" else 1500), require_flags=True,
                 only=["executed_set_differs_from_model", "later_execution_does_not_see_first_setup_value"],
-                **_seeds(seed + 45, k)) for k in range(2 if tier == "quick" else 8)],
+                **_seeds(seed + 45, k)) for k in range(2 if tier == "quick" else 8)]
+        # a flag that is a DAG argument is evaluated for every call: IF a setup node carrying such a flag can be built at all, the
+        # second call does not run on the first call's flag
+        + [dict(kind="hist15", pid="C10", leak_only=True, n_histories=(3 if tier == "quick" else 20),
+                only=["later_call_computed_from_an_earlier_calls_argument*"], **_seeds(seed + 47, 0))],
         level="exploration",
         rule=RULE_DIFF + "; plus histories (setup(targets), executors, calls, copies) on DAGs whose flags are results of setup nodes; flag forms: every truthy/falsy constant, DAG argument, node result, result[key], nested keys, unpacked element, "
         "and_/or_/not_ and operator expressions; positions: plain call site, reused function, call site inside an inner DAG, nested-DAG "
